@@ -2,7 +2,7 @@ package accumulation
 
 // C07 at source level: totality of the per-function analysis over a family of syntactic constructs, through
 // the REAL pipeline (zz_verif_pipe.go). A function body is assembled from one or two statement templates
-// out of a fixed list that covers the node kinds a control-flow graph can carry (type assertions and
+// out of a fixed list of 75 that covers the node kinds a control-flow graph can carry (type assertions and
 // function literals used as conditions or switch tags, range-over-func with literal / defined / aliased
 // yield types and 0-2 variables, range-over-int, labelled break/continue/goto, tagged and tagless switches
 // with fallthrough and negated cases, type switches, select, conversions on the left of an assignment,
@@ -70,6 +70,36 @@ var gm map[string]*int
 var gch chan *int
 var gflag bool
 
+type box[T any] struct{ v T }
+
+func (b *box[T]) get() T { return b.v }
+
+type base struct{ p *int }
+
+func (b *base) ptr() *int { return b.p }
+
+type derived struct {
+	base
+	extra *int
+}
+
+func named() (r *int, err error) {
+	defer func() {
+		if recover() != nil {
+			r = nil
+		}
+	}()
+	r = new(int)
+	return
+}
+
+func three() (*int, bool, error) { return nil, false, nil }
+
+type fnT func(*int) *int
+
+var garr [3]*int
+var gs string
+
 `
 
 func p07TemplateList() []string {
@@ -124,6 +154,31 @@ func p07TemplateList() []string {
 		"type local struct{ f *int }\nlv := local{}\n_ = *lv.f",
 		"switch y := x; {\ncase y == nil:\ndefault:\n\t_ = *y\n}",
 		"s = append(s, x)\n_ = *s[len(s)-1]\ns = s[1:]\ns = s[:0:0]",
+		"v, ok := gm[\"k\"]\nif ok {\n\t_ = *v\n}\nv, ok = <-gch\n_, _ = v, ok",
+		"w, ok := i.(*int)\n_ = ok\nif w != nil {\n\t_ = *w\n}",
+		"mv := l.All\nmv(func(*int) bool { return true })\nme := (*list).All\nme(l, func(*int) bool { return false })",
+		"bx := &box[*int]{v: x}\n_ = *bx.get()\nvar by box[int]\n_ = by.get()",
+		"dv := &derived{}\n_ = *dv.ptr()\n_ = *dv.p\n_ = *dv.base.p\n_ = *dv.extra",
+		"_ = vari(s...)\n_ = vari(append(s, x)...)\nvar none []*int\n_ = vari(none...)",
+		"r, err := named()\nif err != nil {\n\treturn\n}\n_ = *r",
+		"p1, okk, err := three()\n_, _ = okk, err\n_ = *p1",
+		"for k, ch := range gs {\n\t_, _ = k, ch\n}\nfor range gs {\n}",
+		"for v := range gch {\n\t_ = *v\n}",
+		"for k := range gm {\n\tdelete(gm, k)\n}\nclear(gm)",
+		"for k, v := range garr {\n\t_, _ = k, *v\n}\nfor k := range garr {\n\t_ = *garr[k]\n}",
+		"var f fnT = func(q *int) *int { return q }\n_ = *f(x)\n_ = *fnT(f)(nil)",
+		"lit := []*int{x, nil}\n_ = *lit[1]\nml := map[string]*int{\"a\": x}\n_ = *ml[\"a\"]\nsl := struct{ q *int }{q: x}\n_ = *sl.q",
+		"switch v := i.(type) {\ncase *int, *node:\n\t_ = v\ncase interface{ area() *int }:\n\t_ = *v.area()\ndefault:\n\t_ = v\n}",
+		"var e error\nswitch e.(type) {\ncase nil:\ncase interface{ Unwrap() error }:\n}",
+		"func() {\n\tdefer func() { _ = *x }()\n\tgo func() { _ = *x }()\n}()",
+		"pp := &x\n_ = **pp\n*pp = nil\n_ = *x",
+		"var iface any = x\nif q, ok := iface.(interface{ m() }); ok {\n\tq.m()\n}",
+		"a1, a2 := x, x\na1, a2 = a2, nil\n_, _ = *a1, *a2",
+		"const n = 2\nvar fixed [n]*int\nfixed[n-1] = x\n_ = *fixed[0]",
+		"if x == nil || *x == 0 {\n\treturn\n}\n_ = *x",
+		"for {\n\tselect {\n\tcase v, ok := <-gch:\n\t\tif !ok {\n\t\t\treturn\n\t\t}\n\t\t_ = *v\n\tcase gch <- x:\n\t\tcontinue\n\t}\n}",
+		"LBLL:\n\tswitch {\n\tcase b:\n\t\tfor {\n\t\t\tbreak LBLL\n\t\t}\n\tdefault:\n\t}",
+		"var arrp *[3]*int\nif arrp != nil {\n\t_ = *arrp[0]\n\tfor range arrp {\n\t}\n}",
 	}
 }
 
@@ -143,7 +198,7 @@ func Harness_P07() {
 		k2 := ndChoice("template2", len(p07Templates))
 		// two templates may declare the same name or label: keep each in its own block
 		// labels are function-scoped: the second copy gets its own
-		second := strings.ReplaceAll(strings.ReplaceAll(p07Templates[k2], "OUTERL", "OUTERM"), "ENDL", "ENDM")
+		second := strings.ReplaceAll(strings.ReplaceAll(strings.ReplaceAll(p07Templates[k2], "OUTERL", "OUTERM"), "ENDL", "ENDM"), "LBLL", "LBLM")
 		body = p07Block(p07Templates[k1]) + p07Block(second)
 	}
 	prelude := p07Prelude
